@@ -313,7 +313,10 @@ def _native_partition(kind, Nproc, size=2.5):
                 out.append(f"owned nodes are not a partition of the {glob.Nn} mesh nodes ({tot} assigned, {len(set().union(*per_rank))} distinct)")
     for r, m in enumerate(parts):
         # documented: rows of nodes outside the part stay at zero; the rows of its own nodes are the global coordinates under the global numbering
-        pn = np.unique(np.concatenate([np.asarray(g.connect).ravel() for g in m.dict_groupElem.values() if g.Ne]))
+        arrs = [np.asarray(g.connect).ravel() for g in m.dict_groupElem.values() if g.Ne]
+        if not arrs:
+            continue          # gmsh left this rank without any element
+        pn = np.unique(np.concatenate(arrs))
         pc = np.asarray(m.coord)
         if pc.shape != gcoord.shape or not np.array_equal(pc[pn], gcoord[pn]):
             out.append(f"part {r}: coordinates of its nodes differ from the global coordinates")
